@@ -141,10 +141,11 @@ impl Property for C01 {
         "C01"
     }
     fn rule(&self) -> &'static str {
-        "grid: key = PDU length 0..=4100; for each: 5 label cases (6-byte, 3-byte, broadcast, 6-byte primed, 3-byte primed = re-use substitution when enabled) x 7 buffer sizes (exact-1, exact, exact+1 for the label as written, 4097, 4098, 65536, 70000) x re-use on/off x storage (== PDU, +1, 70000); random: seeded cells over all protocol types >= 0x0600, 5 content classes, random buffer/storage; ptypes (thorough): every protocol type 0x0600..=0xFFFF at three PDU sizes. Non-trivial = encap returned a completed packet that was fed to decap and compared (outcome 'delivered'); fingerprint = (pdu length, label case, buffer, re-use, storage) or (ptype,size)."
+        "grid: key = PDU length 0..=4100; for each: 5 label cases (6-byte, 3-byte, broadcast, 6-byte primed, 3-byte primed = re-use substitution when enabled) x 7 buffer sizes (exact-1, exact, exact+1 for the label as written, 4097, 4098, 65536, 70000) x re-use on/off x storage (== PDU, +1, 70000); random: seeded cells over all protocol types >= 0x0600, 5 content classes, random buffer/storage; traffic: the round trip of a complete packet at the end of a seeded lock-step history (fragment trains in flight or completed in between, re-use substitutions, resets, configuration changes); ptypes (thorough): every protocol type 0x0600..=0xFFFF at three PDU sizes. Non-trivial = encap returned a completed packet that was fed to decap and compared (outcome 'delivered'); fingerprint = (pdu length, label case, buffer, re-use, storage) or (ptype,size)."
     }
     fn gens(&self, cx: &Cx) -> Vec<Gen> {
         let mut g = vec![Gen { name: "grid", count: 4101, exhaustive: true }, Gen { name: "random", count: cx.n(100_000, 6_000_000), exhaustive: false }];
+        g.push(Gen { name: "traffic", count: cx.n(30_000, 1_000_000), exhaustive: false });
         if !cx.quick() {
             g.push(Gen { name: "ptypes", count: 0x10000 - 0x600, exhaustive: true });
         }
@@ -226,6 +227,61 @@ impl Property for C01 {
                     if key < 3 {
                         rep.sample(|| format!("random: pdu {}B {} label {} primed={} reuse_on={} ptype {:#06x} buffer {}B storage {}B -> delivered intact", plen, hex_short(&pdu, 16), label_str(&label), prime, reuse_on, ptype, buf_len, storage));
                     }
+                }
+            }
+            "traffic" => {
+                // the round trip inside traffic: a seeded lock-step history (complete packets, fragment trains in
+                // flight and completed later, re-use substitutions, resets) and then one complete packet
+                use super::labelops::{random_op, Exec, Op, Outcome, LABELS};
+                let mut ex = Exec::new(true);
+                let n = 2 + rng.below(10);
+                let mut ops: Vec<Op> = Vec::new();
+                let mut sink = Report::new();
+                for _ in 0..n {
+                    let op = match rng.below(6) {
+                        0 => Op::Cont,
+                        1 => Op::Enc { label: [0u8, 1, 2, 3][rng.below(4)], outcome: Outcome::Fragments, ext: false },
+                        _ => random_op(&mut rng, false),
+                    };
+                    ops.push(op);
+                    if !ex.step(&op, 0, &|| String::new(), &mut sink, &replay) {
+                        rep.count("traffic.history-abandoned");
+                        return;
+                    }
+                }
+                if ex.rx_errors > 0 {
+                    // the receiver rejected something (e.g. an unresolvable explicit re-use label): the two label
+                    // memories may legitimately differ, the final round trip would not be conclusive
+                    rep.count("traffic.skipped-receiver-rejected-earlier");
+                    return;
+                }
+                let li = [0usize, 1, 2, 3, 4][rng.below(5)];
+                let label = LABELS[li];
+                let plen = rng.below(21);
+                let pdu = gen_pdu(&mut rng, plen, 0);
+                let ptype = gen_user_ptype(&mut rng);
+                let mut buf = vec![0u8; 64];
+                rep.eval();
+                let r = enc_guard(&mut ex.enc, &pdu, 200, EncapMetadata::new(ptype, label), &mut buf);
+                let nrep = match r {
+                    Ok(Ok(EncapStatus::CompletedPkt(k))) if (k as usize) <= buf.len() => k as usize,
+                    _ => {
+                        rep.count("traffic.final-not-completed");
+                        return;
+                    }
+                };
+                let lt = wire::lt_of_word(u16::from_be_bytes([buf[0], buf[1]]));
+                let d = dec_guard(ex.dec.as_mut().unwrap(), &buf[..nrep]);
+                let hist = || super::labelops::hist_str(&ops);
+                match &d {
+                    Ok(Ok((DecapStatus::CompletedPkt(b, m), c))) if *c == nrep && m.pdu_len() == plen && b[..plen] == pdu[..] && m.protocol_type() == ptype && m.label() == label => {
+                        rep.count(if lt == 3 { "traffic.delivered-substituted" } else { "traffic.delivered" });
+                        rep.nontrivial(mix(0x7AFF, mix(key, lt as u64)));
+                        if key < 2 {
+                            rep.sample(|| format!("traffic: after [{}] a complete packet with label {} (label type bits {}) is delivered with that label", hist(), label_str(&label), lt));
+                        }
+                    }
+                    other => rep.violation("C01", format!("fidelity-in-traffic:{}{}", label_kind_name(&label), if lt == 3 { "+substituted" } else { "" }), || format!("after the history [{}] (every packet accepted by the receiver), encap(pdu {}B, label {}, type {:#06x}) = CompletedPkt({}) but decap returns {}", hist(), plen, label_str(&label), ptype, nrep, dec_res_str(other)), &replay),
                 }
             }
             "ptypes" => {
